@@ -22,7 +22,7 @@ VERIF = os.path.dirname(os.path.dirname(os.path.dirname(os.path.abspath(__file__
 # file -> number of cfg sites mentioning feature = "std", with the story for each file
 STD_SITES = {
     'lib.rs': (43, 'pub mod lib re-exports (std vs alloc names of the same items), no_std Error module, custom_exec_memory field, set_jit_exec_memory, the std / no_std bodies of jit_compile in the 3 VM types: unit vmapi is proved on BOTH trees'),
-    'jit.rs': (6, 'layout field + the two JitMemory::new variants + Drop: jit_compile / encoders / resolve_jumps are shared text (proved once); JitMemory::new (no_std variant) has its own contract harness jit_memory_new_nostd; the std variant differs only in where the buffer comes from (alloc + mprotect, not executable by the verifier: trusted)'),
+    'jit.rs': (6, 'layout field + the two JitMemory::new variants + Drop: jit_compile / encoders / resolve_jumps are shared text (proved once); JitMemory::new (no_std variant) has its own contract harness jit_memory_new_nostd; the size expression of BOTH variants is proved (jit_memory_size_<k>: >= what the counting pass sized, whole pages; the allocating variant uses it for layout, mprotect and slice); alloc / mprotect themselves are trusted'),
     'helpers.rs': (5, 'bpf_time_getns, bpf_trace_printf, sqrti, rand exist only with std (absent, not different); gather_bytes / memfrob / strcmp are shared text'),
     'asm_parser.rs': (7, 'parse(): easy_parse (std) vs parse (no_std) of the same combine grammar: inside the trusted grammar; differs only in the error TEXT'),
     'disassembler.rs': (3, 'disassemble(): println! vs log::info! of the same to_insn_vec entries (to_insn_vec itself is shared text)'),
